@@ -118,6 +118,7 @@ def _r051(ctx: Ctx) -> None:
 def facts_to_obs(ctx: Ctx, facts, mapping) -> None:
     """mapping: fact tag -> rule id (facts with other tags are ignored)."""
     seen = set()
+    lost = []
     for f in facts:
         r = mapping.get(f.tag)
         if r is None:
@@ -126,11 +127,15 @@ def facts_to_obs(ctx: Ctx, facts, mapping) -> None:
             r = r(f)
             if r is None:
                 continue
+        if getattr(f, 'lost', False):
+            lost.append(f)
+            continue
         k = (r, f.key, f.ok)
         if k in seen:
             continue
         seen.add(k)
         ctx.ob(r, f.site, f.what, f.ok, f.detail, key=f.key, facts=f.facts)
+    sector.raise_if_lost(lost)
 
 
 def _r056_xcube_axes(ctx: Ctx) -> None:
@@ -282,3 +287,9 @@ def run(ctx: Ctx) -> None:
         memo_code_rule(ctx, 'R05.5')
     with ctx.part():
         _r056_xcube_axes(ctx)
+    with ctx.part():
+        # the weights / priors a decoder is built from are read from memoised channel data: written through, the next
+        # decoder built from the same noise model gets other weights (a zero syndrome then has a non-zero matching)
+        from .c06 import frozen_rule
+        frozen_rule(ctx, 'R05.5', 'panqec.error_models')
+        frozen_rule(ctx, 'R05.5', 'panqec.decoders')
